@@ -705,6 +705,11 @@ func preCancelled(rng *Rng, n int, needTimeout bool, add func(InstD, []ReqD, str
 		}
 		if needTimeout {
 			stack = append(stack, PolD{K: "Timeout", Limit: limit + 7})
+		} else if rng.Chance(35) {
+			// a FULL bulkhead outermost (nothing to pick from: only the context's Done is ready), with and without a max wait
+			mw := Pick(rng, []int64{0, 0, 4128})
+			g.inst.Bulkheads = append(g.inst.Bulkheads, [3]int64{1, 1, mw})
+			stack = append([]PolD{{K: "Bulkhead", Inst: len(g.inst.Bulkheads) - 1, MaxWait: mw}}, stack...)
 		}
 		coop := OutD{R: -5, Err: &ErrD{K: "Sent", A: 2}}
 		step := FnStepD{Out: genOutcome(rng), Dur: Pick(rng, []int64{256, limit / 2, limit + 1024, 3*limit + 7})}
